@@ -154,4 +154,38 @@ theorem rel_cases (a b : Addr) :
     have hf' : (a.package == b.package && a.module == b.module) = false := by simpa using hf
     exact ⟨hf', by simp [hf']⟩
 
+/-! ### the alias scheme is not injective (a genuine defect of the unchanged tree, recorded as a C12 finding) -/
+
+/-- the initials part of an alias -/
+def initials (pk : List Str) (v : Str) : Str :=
+  join [] (pk.flatMap fun i => ((split i ['_']).filter fun pn => (i != v) && truthy pn).map fun pn => idxStr pn 0)
+
+theorem module_alias_eq_initials (m : Str) (c pk : List Str) (v : Str)
+    (h : (strIn m c || strIn m (Pinned.reservedNames.map String.toList)) = true) :
+    address_module_alias m c pk v = initials pk v ++ ['_'] ++ m := by
+  unfold address_module_alias initials
+  simp only [h, if_true]
+  rfl
+
+/-- **counterexample to "two imported modules that share a base name get different aliases"**: the sub-packages `admin` and
+`audit` of `acme.lib.v1` have the same initials, so `common.proto` of both is imported `as ala_common` and the second import
+rebinds the first (replayed on the real generator: corpus/C12, finding `alias-collision:same-initials`) -/
+theorem alias_not_injective_counterexample :
+    address_module_alias "common".toList ["common".toList] ["acme".toList, "lib".toList, "v1".toList, "admin".toList] "v1".toList =
+    address_module_alias "common".toList ["common".toList] ["acme".toList, "lib".toList, "v1".toList, "audit".toList] "v1".toList := by
+  decide
+
+/-- what does hold (`…_partial`: the full claim "different packages ⇒ different aliases" is false, see above): two colliding
+modules of the same base name get different aliases exactly when their packages' initials differ -/
+theorem alias_distinct_iff_initials_partial (m : Str) (c1 c2 pk1 pk2 : List Str) (v : Str)
+    (h1 : (strIn m c1 || strIn m (Pinned.reservedNames.map String.toList)) = true)
+    (h2 : (strIn m c2 || strIn m (Pinned.reservedNames.map String.toList)) = true) :
+    address_module_alias m c1 pk1 v = address_module_alias m c2 pk2 v ↔ initials pk1 v = initials pk2 v := by
+  rw [module_alias_eq_initials m c1 pk1 v h1, module_alias_eq_initials m c2 pk2 v h2]
+  constructor
+  · intro h
+    have := List.append_cancel_right h
+    exact List.append_cancel_right this
+  · intro h; rw [h]
+
 end GapicModel.Lemmas.AddressT
